@@ -33,6 +33,9 @@ TARGETS = {
     "strapdown": ("py/formak/reference_models/strapdown_imu.py", ["C19"]),
     "managed_h": ("cpp/runtime/include/formak/runtime/ManagedFilter.h", ["C10", "C11", "C12"]),
     "tools": ("py/formak/ast_tools.py", ["C02", "C15", "C12"]),
+    "tpl_sensor": ("py/formak/templates/sensor_model.hpp", ["C07", "C06", "C09", "C02", "C12"]),
+    "tpl_process": ("py/formak/templates/process_model.cpp", ["C07", "C09", "C02", "C12"]),
+    "innov_h": ("cpp/include/formak/innovation_filtering.h", ["C06", "C07", "C12"]),
 }
 
 CMP = {ast.Lt: [ast.LtE, ast.Gt], ast.LtE: [ast.Lt, ast.GtE], ast.Gt: [ast.GtE, ast.Lt], ast.GtE: [ast.Gt, ast.LtE], ast.Eq: [ast.NotEq], ast.NotEq: [ast.Eq],
